@@ -171,6 +171,8 @@ def rewrite_mut_self(text, counts):
 
 REGEX_RULES = [
     ('R4:const-slice-static', r"const (\w+): &\[", r"const \1: &'static ["),
+    ('R1:map_err-annotated', r"map_err\(InitError::ResetPin\)", r"map_err(|e: RST::Error| -> (r: InitError<DI::Error, RST::Error>) ensures r == InitError::<DI::Error, RST::Error>::ResetPin(e) { InitError::ResetPin(e) })"),
+    ('R1:map_err-annotated', r"map_err\(InitError::Interface\)", r"map_err(|e: DI::Error| -> (r: InitError<DI::Error, RST::Error>) ensures r == InitError::<DI::Error, RST::Error>::Interface(e) { InitError::Interface(e) })"),
     ('R1:map_err-into', r"\.map_err\(Into::into\)", r".map_err(|e: DI::Error| -> (r: crate::models::ModelInitError<DI::Error>) ensures r == crate::models::ModelInitError::<DI::Error>::Interface(e) { crate::models::ModelInitError::Interface(e) })"),
     ('R1:map_err-eta', r"map_err\(((?:\w+::)+\w+)\)", r"map_err(|e| \1(e))"),
     ('R2:closure-wildcard', r"\|_\|", r"|_u|"),
@@ -239,6 +241,8 @@ def rewrite_question_mark(text, counts):
         es = st + (lm.end() if lm else 0)
         if re.match(r'(return|if|match|while|for|loop)\b', m[es:q]):
             continue
+        if '.map_err(' in rsscan.squash(m[es:q]):
+            continue   # already converted to the function's error type: `?` is the identity conversion, which Verus handles
         edits.append((es, q))
     for es, q in reversed(edits):
         text = text[:es] + 'match ' + text[es:q] + ' { Ok(v__) => v__, Err(e__) => return Err(core::convert::From::from(e__)) }' + text[q + 1:]
